@@ -1,10 +1,106 @@
-(** C02 — A rule run fires for exactly the set of matches of its body. (pinned statements) *)
+(** C02 — A rule run fires for exactly the set of matches of its body.
+    This file only pins statements and prints their assumptions.
+
+    Tier A': the query planner (plan.rs) is not modelled. Every single-bag plan it emits is dumped
+    (hook H1) and checked per instance by [plan_ok]; the theorems below say what an accepted plan
+    guarantees, for ALL databases and ALL run-time stage orders. *)
 From Coq Require Import List Arith PeanoNat.
 Import ListNotations.
 Require Import Verif.Query.Spec Verif.Query.Stages Verif.Query.PlanOk Verif.Query.SpecProofs Verif.Query.Sound.
 
-Example c02_example_triangle :
-  let q := mkQuery [mkAtom 0 [AVar 0; AVar 1] []; mkAtom 1 [AVar 1; AVar 2] []; mkAtom 2 [AVar 2; AVar 0] []] [0;1;2] in
-  let p := mkPlan [0;1;2] [] [Intersect 0 [mkScan 0 0 []; mkScan 2 1 []]; Intersect 1 [mkScan 0 1 []; mkScan 1 0 []]; Intersect 2 [mkScan 1 1 []; mkScan 2 0 []]] in
-  plan_ok q p = true.
-Proof. vm_compute. reflexivity. Qed.
+(** MAIN THEOREM. If the checker accepts the compiled plan [p] for the query [q] then, on every
+    database [d] and for every order oracle [ch] (the executor re-sorts the remaining stages at
+    run time, possibly differently in every branch), the stage machine of free_join/execute.rs
+    ([Intersect] and [FusedIntersect] stages over header-filtered atoms) emits exactly the
+    substitutions the nested-loop specification produces: every emitted binding extends to a
+    match of the body and every match of the body is emitted — as sets of substitutions
+    restricted to the variables the plan binds. *)
+Theorem c02_plan_sound : forall q p, plan_ok q p = true ->
+  forall (d : db) (ch : chooser),
+    (forall s, In s (run_plan ch p d) -> exists t, In t (matches q d) /\ agree (plan_vars p) s t) /\
+    (forall t, In t (matches q d) -> exists s, In s (run_plan ch p d) /\ agree (plan_vars p) s t).
+Proof. exact plan_ok_sound. Qed.
+Print Assumptions c02_plan_sound.
+
+(** ... and the variables the rule's actions read are among them: seen through the action's
+    variables, the rule fires for exactly the matches of its body. *)
+Theorem c02_plan_sound_out : forall q p, plan_ok q p = true ->
+  forall (d : db) (ch : chooser), sem_eq (q_out q) (run_plan ch p d) (matches q d).
+Proof. exact plan_ok_sound_out. Qed.
+Print Assumptions c02_plan_sound_out.
+
+(** The join plan does not matter: two accepted plans for one query (different strategies,
+    different stage orders) fire for the same substitutions on every database. *)
+Theorem c02_plan_independent : forall q p1 p2, plan_ok q p1 = true -> plan_ok q p2 = true ->
+  forall (d : db) (ch1 ch2 : chooser) s1, In s1 (run_plan ch1 p1 d) ->
+    exists s2, In s2 (run_plan ch2 p2 d) /\ agree (q_out q) s1 s2.
+Proof. exact plans_agree. Qed.
+Print Assumptions c02_plan_independent.
+
+(** What "match" means: the nested loops produce [t] only with one witness row per atom, taken
+    from the atom's relation, that satisfies the atom under [t] ... *)
+Theorem c02_match_has_witness : forall q d t, In t (matches q d) -> exists ws, witness q d t ws.
+Proof. exact matches_sound. Qed.
+Print Assumptions c02_match_has_witness.
+
+(** ... and conversely any choice of rows that satisfy every atom's constants and constraints and
+    agree with each other on every variable is the witness of a produced substitution. *)
+Theorem c02_witness_is_match : forall q d ws,
+  Forall2 (local_ok d) (q_atoms q) ws -> pair_consistent (combine (q_atoms q) ws) ->
+  exists t, In t (matches q d) /\ witness q d t ws.
+Proof. exact matches_complete. Qed.
+Print Assumptions c02_witness_is_match.
+
+(** repeated variables, literals, and per-atom constraints (the constant on the subsume column
+    that excludes subsumed rows, the semi-naive timestamp bounds) are honoured by every match *)
+Theorem c02_repeated_var : forall a t w c c' x,
+  row_ok a t w -> In (c, AVar x) (iargs a) -> In (c', AVar x) (iargs a) -> col w c = col w c'.
+Proof. exact row_ok_repeated. Qed.
+Print Assumptions c02_repeated_var.
+
+Theorem c02_const : forall a t w c k, row_ok a t w -> In (c, AConst k) (iargs a) -> col w c = k.
+Proof. exact row_ok_const. Qed.
+Print Assumptions c02_const.
+
+Theorem c02_constraint_honoured : forall a t w k, row_ok a t w -> In k (a_cs a) -> cs_ok w k = true.
+Proof. exact row_ok_constraint. Qed.
+Print Assumptions c02_constraint_honoured.
+
+(* ---------------------------------------------------------------- non-vacuity *)
+
+(** the triangle query with a generic-join plan (three Intersect stages) ... *)
+Definition ex_q := mkQuery [mkAtom 0 [AVar 0; AVar 1] []; mkAtom 1 [AVar 1; AVar 2] []; mkAtom 2 [AVar 2; AVar 0] []] [0; 1; 2].
+Definition ex_gj := mkPlan [0; 1; 2] []
+  [Intersect 0 [mkScan 0 0 []; mkScan 2 1 []]; Intersect 1 [mkScan 0 1 []; mkScan 1 0 []]; Intersect 2 [mkScan 1 1 []; mkScan 2 0 []]].
+(** ... and with a free-join plan (a cover scan probing the two other atoms, then an Intersect) *)
+Definition ex_fj := mkPlan [0; 1; 2] []
+  [Fused 0 [] [(0, 0); (1, 1)] [mkMScan 1 [0] [1] []; mkMScan 2 [1] [0] []]; Intersect 2 [mkScan 1 1 []; mkScan 2 0 []]].
+Definition ex_db : db := [[[1; 2]; [1; 3]; [4; 5]]; [[2; 7]; [3; 7]; [5; 9]]; [[7; 1]; [9; 1]]].
+
+Example c02_example_accepts : plan_ok ex_q ex_gj = true /\ plan_ok ex_q ex_fj = true.
+Proof. vm_compute. split; reflexivity. Qed.
+
+Example c02_example_runs :
+  set_eqb (map (proj [0; 1; 2]) (run_plan ch_last ex_gj ex_db)) (map (proj [0; 1; 2]) (matches ex_q ex_db)) = true /\
+  set_eqb (map (proj [0; 1; 2]) (run_plan ch_first ex_fj ex_db)) [[Some 1; Some 2; Some 7]; [Some 1; Some 3; Some 7]] = true.
+Proof. vm_compute. split; reflexivity. Qed.
+
+(** the checker is not trivially true: a plan that omits one scan of an Intersect is rejected,
+    and it really over-fires (on a database where the omitted atom would have filtered) *)
+Definition ex_bad := mkPlan [0; 1; 2] []
+  [Intersect 0 [mkScan 0 0 []]; Intersect 1 [mkScan 0 1 []; mkScan 1 0 []]; Intersect 2 [mkScan 1 1 []; mkScan 2 0 []]].
+Example c02_example_rejects :
+  plan_ok ex_q ex_bad = false /\
+  set_eqb (map (proj [0; 1; 2]) (run_plan ch_first ex_bad [[[1; 2]]; [[2; 7]]; [[7; 3]]])) [[Some 1; Some 2; Some 7]] = true /\
+  matches ex_q [[[1; 2]]; [[2; 7]]; [[7; 3]]] = [].
+Proof. vm_compute. repeat split; reflexivity. Qed.
+
+(** repeated variable inside an atom, a literal, a column constraint, an unread variable:
+    R(x, x, 5), S(x, y) with y < 9, action reads x only; the equality of the two columns of R is
+    evaluated as a constraint of the first scan, the literal by the header *)
+Example c02_example_repeated_const :
+  plan_ok (mkQuery [mkAtom 0 [AVar 0; AVar 0; AConst 5] []; mkAtom 1 [AVar 0; AVar 1] [CLtConst 1 9]] [0])
+          (mkPlan [0; 1] [mkHeader 0 [CEqConst 2 5]] [Intersect 0 [mkScan 0 0 [CEq 1 0]; mkScan 1 0 [CLtConst 1 9]]]) = true /\
+  plan_ok (mkQuery [mkAtom 0 [AVar 0; AVar 0; AConst 5] []; mkAtom 1 [AVar 0; AVar 1] [CLtConst 1 9]] [0])
+          (mkPlan [0; 1] [mkHeader 0 [CEqConst 2 5]] [Intersect 0 [mkScan 0 0 []; mkScan 1 0 [CLtConst 1 9]]]) = false.
+Proof. vm_compute. split; reflexivity. Qed.
